@@ -38,6 +38,7 @@ fn check_request(s: &mut Stats, fam: &str, r: &Req, depth: Depth, all_cuts_below
             s.evaluations += 1;
             s.transitions += 1;
             let (b2, c2, p2) = (bytes.clone(), cuts.clone(), pend.clone());
+            let _call = crate::report::enter(&bytes);
             let res = std::panic::catch_unwind(move || {
                 let mut rd = AsyncCut::new(b2, c2, p2);
                 block_on(async { Request::from_stream(&mut rd, peer).await })
